@@ -66,7 +66,7 @@ def gen_plan(rng, tier, index):
             ops.append([op, rng.choice([0, 1, 2])])
     plan = {
         "active": rng.random() < 0.4, "ops": ops,
-        "early_select": rng.random() < 0.5, "early_steps": rng.choice([0, 0, 1, 2, 5, 10, 20, 40, 80]),
+        "early_select": rng.random() < 0.5, "early_steps": rng.choice([0, 0, 0, 0, 0, 1, 2, 5, 10, 20, 40, 80]),
         "select_answer": rng.choice(["ok", "ok", "ok", "status1", "status2", "none"]),
         "latency": rng.choice([0.0, 0.0005, 0.01]),
     }
